@@ -7,7 +7,7 @@ import torch
 from . import wq
 
 EVIDENCE = dict(
-    bounds="value clauses (RERR): rows/groups of 3 symbolic finite elements, case split on which element is the absmax (8-bit) or on the ordering (2/4-bit), float16/bfloat16/float32, all six qtypes, weights (AbsmaxOptimizer/MaxOptimizer via quantize_weight) and activations (absmax_scale); side conditions and locality (ALG support + permutation): ranks 1..4, dims <= 3, axis in {0,-1} (and None for absmax_scale), every divisor group size; histories: a weight of another float dtype quantized first through the process-wide default optimizers (4 dtype orders), compared with a run in a forked process without that history",
+    bounds="value clauses (RERR): rows/groups of 3 symbolic finite elements, case split on which element is the absmax (8-bit) or on the ordering (2/4-bit), float16/bfloat16/float32, all six qtypes, weights (AbsmaxOptimizer/MaxOptimizer via quantize_weight) and activations (absmax_scale); side conditions and locality (ALG support + permutation): ranks 1..4, dims <= 3 (plus shapes (L+1,2), (2,L+1), (2L+1,1), (L/2+1,2), (2,L/2+1) for every integer literal L in 24..1024 that the current source of the optimizers, quantizers, grouping and qweight/qactivation code uses as a possible size threshold - none on the pinned tree), axis in {0,-1} (and None for absmax_scale), every divisor group size; histories: a weight of another float dtype quantized first through the process-wide default optimizers (4 dtype orders), compared with a run in a forked process without that history",
     outside="custom optimizers; shapes beyond the bounds; CUDA/MPS",
     assumptions=[
         "RERR standard model; overflow of absmax/qmax or max-min is the C16 clause (BIT)",
@@ -36,7 +36,7 @@ def cases(tier, seed):
     # histories: the default optimizers are process-wide objects; a scale must not depend on what was quantized before
     for q in ALLQ:
         out.append(dict(kind="history", qtype=q))
-    shapes = _shapes(tier)
+    shapes = _shapes(tier) + wq.quantizer_threshold_shapes()  # + shapes straddling the integer size thresholds of the current source (none on the pinned tree)
     n = 5 if tier == "quick" else 10
     for dt in ("float16", "float32") if tier == "quick" else ("float16", "bfloat16", "float32"):
         for q in ALLQ:
@@ -318,6 +318,23 @@ def run_case(case, res):
                         if bad:
                             break
                     res.query("locality-support", "ALG", "unsat" if bad is None else "sat", 0.0, sub=cfg, nvars=w.numel())
+                    # full range: any element of a group can be its extreme, so every result of the group depends (through the
+                    # scale) on every element of the group; an element missing from the support can be made to saturate
+                    miss = None
+                    for g in groups:
+                        allowed = {W[i].args[0] for i in g}
+                        for i in g:
+                            sup = tm.support([Dl[pos[i]]])
+                            if sup and (allowed - sup):
+                                miss = (i, next(j for j in g if W[j].args[0] not in sup))
+                                break
+                        if miss:
+                            break
+                    res.query("scale-depends-on-every-group-element", "ALG", "unsat" if miss is None else "sat", 0.0, sub=cfg, nvars=w.numel())
+                    if miss is not None:
+                        w3 = w.clone()
+                        w3[miss[1]] = (w.float().abs().max() * 6 + 1).to(dt)  # value-directed witness: the ignored element becomes the extreme
+                        res.candidate("full-range", "ALG", dict(w=api.enc_tensor(w3), qtype=case["qtype"], axis=axis, group_size=gs, source="weight" if not lowbit else "dep-affine"), note=f"result {miss[0]} does not depend on element {miss[1]} of its group")
                     if bad is not None:
                         # witness pair: same group, other groups rescaled
                         gidx = next(k for k, g in enumerate(groups) if bad[0] in g)
@@ -384,6 +401,9 @@ def replay(rec):
                 if Fraction(s) > (Fraction(hi) - Fraction(lo)) / (2**q_t.bits - 1) * (1 + Fraction(4, 2 ** f["p"])) + Fraction(2) ** (f["emin"] - f["p"] + 1):
                     probs.append(f"group {vals}: scale {s} > (hi-lo)/(2^bits-1) = {(hi-lo)/(2**q_t.bits-1)}")
             return bool(probs), "\n".join(probs) or "affine scale clauses hold", None
+        if src == "dep-affine":
+            pr = wq.affine_oracle(w, inp["qtype"], inp["axis"], inp.get("group_size"), tol_scale=4)
+            return bool(pr), "\n".join(p[2] for p in pr[:4]) or "every element within half a step (+tolerance)", None
         if src == "local":
             q = quantize_weight(w, q_t, inp["axis"], inp.get("group_size"))
             d = q.dequantize()
